@@ -472,14 +472,14 @@ def main(tier, seed, replay=None):
                                "what": "[%s] %s : expected edges %s, cppcheck has %s (clang agrees with the spec; %d statements of this run reduce to it, e.g. %s)"
                                        % (lang, stmt, json.dumps(b["expected"]), json.dumps(b["observed"]), b["instances"], b["from_stmt"]), "replay": p})
     # statements that are not judged (rejected as syntax error / rewritten by the tokenizer before the AST exists) must stay rare:
-    # measured on the pinned tree 0.06 % and 0.2 %; far more means the parser gives up on valid expressions
+    # measured on the pinned tree 0.06 % and 0.2 % (quick), 0.03 % and 0.1 % (thorough); more means the parser gives up on valid expressions
     for lang in ("c", "cpp"):
-        for what, limit in (("rejected", 0.005), ("rewritten", 0.01)):
+        for what, limit in (("rejected", 0.0015), ("rewritten", 0.006)):
             if res[lang][what] > limit * res[lang]["cases"]:
                 p = vlib.save_replay(PID, "%s-too-many-%s" % (lang, what), {"lang": lang, "count": res[lang][what], "cases": res[lang]["cases"],
                                                                              "samples": res[lang][what + "_samples"]})
                 violations.append({"key": "%s:too-many-%s" % (lang, what),
-                                   "what": "[%s] %d of %d valid statements were %s (limit %.1f %%), e.g. %s"
+                                   "what": "[%s] %d of %d valid statements were %s (limit %.2f %%), e.g. %s"
                                            % (lang, res[lang][what], res[lang]["cases"], what, 100 * limit, res[lang][what + "_samples"][:3]), "replay": p})
     rc, new, known = vlib.verdict(PID, violations)
 
